@@ -45,8 +45,19 @@ class NumpyEncoder(json.JSONEncoder):
         return json.JSONEncoder.default(self, obj)
 
 
+def _plain_keys(obj):
+    """json never asks the encoder about dictionary keys: turn numpy scalar keys (computed numbers) into plain ones"""
+    if isinstance(obj, dict):
+        return {(k.item() if isinstance(k, np.generic) else k): _plain_keys(v) for k, v in obj.items()}
+    if isinstance(obj, (list, tuple)):
+        return [_plain_keys(v) for v in obj]
+    if isinstance(obj, np.ndarray) and obj.dtype == object:
+        return [_plain_keys(v) for v in obj]
+    return obj
+
+
 def encode_message(msg):
-    return json.dumps(msg, cls=NumpyEncoder)
+    return json.dumps(_plain_keys(msg), cls=NumpyEncoder)
 
 
 def decode_message(data):
